@@ -66,6 +66,8 @@ pub fn word(r: &mut Rng) -> u64 {
     }
 }
 
+const STAGE_WIDTH: usize = 4096;
+
 pub struct Emitter {
     req: BufWriter<File>,
     ans: BufWriter<File>,
@@ -73,7 +75,8 @@ pub struct Emitter {
     pub n: u64,
     pub samples: Vec<String>,
     pub oracle_failures: Vec<String>,
-    stage_path: std::path::PathBuf,
+    stage_file: File,
+    stage_long: bool,
     pub extra_json: Option<serde_json::Value>,
 }
 
@@ -87,14 +90,26 @@ impl Emitter {
             n: 0,
             samples: vec![],
             oracle_failures: vec![],
-            stage_path: dir.join("stage.txt"),
+            stage_file: File::create(dir.join("stage.txt")).unwrap(),
+            stage_long: false,
             extra_json: None,
         }
     }
     /// Note what the harness is about to do outside a `case` (building / proving a circuit …):
     /// if the process dies there, check.py reports this description instead of blaming a request.
     pub fn stage(&mut self, what: &str) {
-        let _ = std::fs::write(&self.stage_path, what);
+        // one positional write into an open file (fixed-width record, space padded): no truncation,
+        // no metadata traffic — a per-case create/truncate costs a block-layer wait under I/O load
+        use std::os::unix::fs::FileExt;
+        let mut rec = what.as_bytes().to_vec();
+        if self.stage_long {
+            let _ = self.stage_file.set_len(0);
+        }
+        self.stage_long = rec.len() > STAGE_WIDTH;
+        if rec.len() < STAGE_WIDTH {
+            rec.resize(STAGE_WIDTH, b' ');
+        }
+        let _ = self.stage_file.write_all_at(&rec, 0);
     }
     /// Record one case: the request line and the implementation's answer (PANIC if it unwinds).
     pub fn case<Fun: FnOnce() -> String>(&mut self, class: &str, req: String, f: Fun) {
@@ -102,14 +117,14 @@ impl Emitter {
         // allocation failure) the last line of req.txt names the case that killed it
         writeln!(self.req, "{}", req).unwrap();
         self.req.flush().unwrap();
-        let _ = std::fs::write(&self.stage_path, "case");
+        self.stage("case");
         let ans = match catch_unwind(AssertUnwindSafe(f)) {
             Ok(s) => s,
             Err(_) => "PANIC".to_string(),
         };
         debug_assert!(!req.contains('\n') && !ans.contains('\n'));
         writeln!(self.ans, "{}", ans).unwrap();
-        let _ = std::fs::write(&self.stage_path, "between cases");
+        self.stage("between cases");
         *self.hist.entry(class.to_string()).or_insert(0) += 1;
         if self.samples.len() < 12 && (self.n % 97 == 0) {
             self.samples.push(format!("{} => {}", req, ans));
